@@ -8,18 +8,21 @@
 extern int urcu_memb_has_sys_membarrier;
 # define FL_SET_MEMBARRIER(v) (urcu_memb_has_sys_membarrier = (v))
 # define FL_READER_CTR() (URCU_TLS(urcu_memb_reader).ctr)
+# define FL_NEST_MASK URCU_GP_CTR_NEST_MASK
 #elif defined(FL_MB)
 # include <urcu/urcu-mb.h>
 # define F(x) urcu_mb_##x
 # define FLNAME "mb"
 # define FL_SET_MEMBARRIER(v) ((void)(v))
 # define FL_READER_CTR() (URCU_TLS(urcu_mb_reader).ctr)
+# define FL_NEST_MASK URCU_GP_CTR_NEST_MASK
 #elif defined(FL_QSBR)
 # include <urcu/urcu-qsbr.h>
 # define F(x) urcu_qsbr_##x
 # define FLNAME "qsbr"
 # define FL_SET_MEMBARRIER(v) ((void)(v))
 # define FL_READER_CTR() (URCU_TLS(urcu_qsbr_reader).ctr)
+# define FL_NEST_MASK 0UL
 #elif defined(FL_BP)
 # include <urcu/urcu-bp.h>
 # define F(x) urcu_bp_##x
@@ -27,6 +30,7 @@ extern int urcu_memb_has_sys_membarrier;
 extern int urcu_bp_has_sys_membarrier;
 # define FL_SET_MEMBARRIER(v) (urcu_bp_has_sys_membarrier = (v))
 # define FL_READER_CTR() (URCU_TLS(urcu_bp_reader) ? URCU_TLS(urcu_bp_reader)->ctr : 0)
+# define FL_NEST_MASK URCU_BP_GP_CTR_NEST_MASK
 #else
 # error "flavor not selected"
 #endif
